@@ -60,6 +60,8 @@ def servable_name(name, toplevel=True, full=False):
         return False
     if name.startswith("URL:"):
         return False
+    if re.search(r" [0-9]+$", name):
+        return False  # '/x y 12' has the shape 'host path content-length': the Spartan protocol claims the line by design
     if full and ("|" in name or "?" in name):
         return False
     if toplevel:
